@@ -270,7 +270,19 @@ var c16Inputs = map[string]string{
 	"conflict":  "grammar calc;\nstart = e;\ne = e \"+\" e | \"n\";\n",
 	// valid specifications without any terminal (the language {empty string}): the whole package is still due
 	"valid3": "grammar calc;\nstart = ;\n",
+	// rejected with exactly 256 / 512 / 255 problems (an exit status is taken modulo 256)
+	"illformed256": "grammar calc;\nstart = " + c16Undefined(256) + ";\n",
+	"illformed512": "grammar calc;\nstart = " + c16Undefined(512) + ";\n",
+	"illformed255": "grammar calc;\nstart = " + c16Undefined(255) + ";\n",
 	"valid4": "grammar calc;\nstart = head tail;\nhead = ;\ntail = | ;\n",
+}
+
+func c16Undefined(n int) string {
+	var b strings.Builder
+	for i := 0; i < n; i++ {
+		fmt.Fprintf(&b, "T%d ", i)
+	}
+	return b.String()
 }
 
 // c16Large builds specifications of more than 1 MiB: a valid head, padding made of comments and blank lines, and a tail
@@ -330,6 +342,16 @@ func c16Execute(c *ctx, bin string, r c16Run) {
 		_ = os.Mkdir(realOut, 0o755)
 		_ = os.Symlink(realOut, out)
 	}
+	if strings.HasPrefix(r.outKind, "tilde:") {
+		// a relative directory literally called "~gen" (etc.) below the working directory, and HOME=<sandbox>/home with
+		// "gen" (etc.) inside it
+		rel := strings.TrimPrefix(r.outKind, "tilde:")
+		out = filepath.Join(sb, rel)
+		realOut = out
+		_ = os.MkdirAll(out, 0o755)
+		home := filepath.Join(sb, "home")
+		_ = os.MkdirAll(filepath.Join(home, strings.TrimPrefix(strings.TrimPrefix(rel, "~"), "/")), 0o755)
+	}
 	effName := r.pkgName
 	if effName == "" && r.gramName != "" {
 		effName = r.gramName
@@ -341,7 +363,7 @@ func c16Execute(c *ctx, bin string, r c16Run) {
 		}
 	}
 	pkgDir := filepath.Join(realOut, effName)
-	if r.outKind == "ok" || r.outKind == "symlink" {
+	if r.outKind == "ok" || r.outKind == "symlink" || strings.HasPrefix(r.outKind, "tilde:") {
 		_ = os.WriteFile(filepath.Join(realOut, "neighbour.go"), []byte("package neighbour\n"), 0o644)
 		if !strings.ContainsAny(effName, "/\x00") && effName != "." && effName != ".." && effName != "" {
 			switch r.pkgPre {
@@ -366,7 +388,9 @@ func c16Execute(c *ctx, bin string, r c16Run) {
 	before := snapshotTree(sb)
 	args := []string{}
 	args = append(args, r.flags...)
-	if r.outKind != "default" {
+	if strings.HasPrefix(r.outKind, "tilde:") {
+		args = append(args, "-out", strings.TrimPrefix(r.outKind, "tilde:"))
+	} else if r.outKind != "default" {
 		args = append(args, "-out", out)
 	}
 	if r.pkgName != "" || strings.Contains(r.name, "emptyname") {
@@ -388,6 +412,7 @@ func c16Execute(c *ctx, bin string, r c16Run) {
 		cmd = exec.Command(bin, args...)
 	}
 	cmd.Dir = sb
+	cmd.Env = append(os.Environ(), "HOME="+filepath.Join(sb, "home"))
 	var outBuf bytes.Buffer
 	cmd.Stdout, cmd.Stderr = &outBuf, &outBuf
 	runErr := cmd.Run()
@@ -549,13 +574,13 @@ func c16Execute(c *ctx, bin string, r c16Run) {
 	var ref map[string]string
 	refWhy := ""
 	expectSuccess := false
-	if r.text != "" && (r.fileKind == "valid" || r.fileKind == "valid2" || r.fileKind == "valid3" || r.fileKind == "valid4" || r.fileKind == "large" || r.fileKind == "gen" || r.fileKind == "lexical" || r.fileKind == "syntax" || r.fileKind == "illformed" || r.fileKind == "overlap" || r.fileKind == "conflict") {
+	if r.text != "" && (r.fileKind == "valid" || r.fileKind == "valid2" || r.fileKind == "valid3" || r.fileKind == "valid4" || r.fileKind == "large" || r.fileKind == "gen" || r.fileKind == "lexical" || r.fileKind == "syntax" || r.fileKind == "illformed" || r.fileKind == "illformed256" || r.fileKind == "illformed512" || r.fileKind == "illformed255" || r.fileKind == "overlap" || r.fileKind == "conflict") {
 		n := r.pkgName
 		if !nameUsable {
 			n = ""
 		}
 		ref, refWhy = referenceGeneration(r.text, n)
-		expectSuccess = ref != nil && nameUsable && (r.outKind == "ok" || r.outKind == "symlink") && r.pkgPre == "none" && !faultOnOutput && !faultOnInput
+		expectSuccess = ref != nil && nameUsable && (r.outKind == "ok" || r.outKind == "symlink" || strings.HasPrefix(r.outKind, "tilde:")) && r.pkgPre == "none" && !faultOnOutput && !faultOnInput
 	}
 	if faultOnOtherRead {
 		c.masked()
@@ -670,7 +695,7 @@ func runC16(c *ctx) {
 	add := func(r c16Run) { runs = append(runs, r) }
 	// (A) input classes x flags
 	flagSets := [][]string{nil, {"-debug"}, {"-verbose"}, {"-debug", "-verbose"}}
-	kinds := []string{"valid", "valid2", "valid3", "valid4", "lexical", "syntax", "illformed", "overlap", "conflict", "missing", "dir"}
+	kinds := []string{"valid", "valid2", "valid3", "valid4", "lexical", "syntax", "illformed", "illformed256", "illformed512", "illformed255", "overlap", "conflict", "missing", "dir"}
 	for _, k := range kinds {
 		for fi, fs := range flagSets {
 			add(c16Run{name: fmt.Sprintf("class/%s/f%d", k, fi), text: c16Inputs[k], fileKind: k, flags: fs, outKind: "ok", pkgPre: "none", useTrace: fi%2 == 0})
@@ -689,6 +714,11 @@ func runC16(c *ctx) {
 			}
 			add(c16Run{name: fmt.Sprintf("large/%d/%d", pad, ti), text: c16Large(tail, pad), fileKind: "large", outKind: "ok", pkgPre: "none", useTrace: ti%2 == 0})
 		}
+	}
+	// (A'') output directories whose names begin with a tilde are ordinary relative names (no shell is involved); HOME
+	// points into the sandbox and holds directories of the same names without the tilde
+	for _, o := range []string{"~gen", "~", "~build/internal", "~/x"} {
+		add(c16Run{name: "tilde/" + o, text: c16Valid, fileKind: "valid", outKind: "tilde:" + o, pkgPre: "none", useTrace: true})
 	}
 	// (B) pre-states
 	for _, ok := range []string{"ok", "missing", "file", "symlink"} {
